@@ -384,7 +384,7 @@ pub fn digests(allow_two: bool) -> BoxedStrategy<Digests> {
     }
 }
 
-pub const SEGMENTS: &[&str] = &["a", "b", "src", "foo.py", "x.tar.gz", "d", "bar", "a.b"];
+pub const SEGMENTS: &[&str] = &["a", "b", "src", "foo.py", "x.tar.gz", "d", "bar", "a.b", "ab", "srcfoo.py", "a/b"];
 
 /// Normalised relative path from a small alphabet, with a low-weight exotic tail.
 pub fn relpath() -> BoxedStrategy<String> {
